@@ -24,8 +24,10 @@ TABLE: List[Entry] = [
     ("R-EVENTS-EXACT", None, "GROUND-event-without-change", {"C04"}),
     # a change without its event leaves a watcher asleep: validity / fixpoint, not termination
     ("R-EVENTS-EXACT", None, None, {"C01", "C08"}),
-    ("R-WRITEBACK-MONO", None, "no-emptiness-check", {"C01", "C08"}),
-    ("R-WRITEBACK-MONO", None, None, {"C01", "C08", "C04"}),
+    ("R-WRITEBACK-MONO", None, "no-emptiness-check", {"C01", "C08", "C13"}),
+    ("R-WRITEBACK-MONO", None, None, {"C01", "C08", "C04", "C13"}),
+    ("R-QUEUE-DRAIN", None, None, {"C01", "C08", "C13"}),
+    ("R-QUEUE-WRITERS", None, None, {"C01", "C08", "C13"}),
     ("R-OFFSET-ROUNDTRIP", "bound_consistency", None, {"C01", "C13", "C08"}),
     # the tightening primitives: a wrong bound gives a wrong optimum / no termination, never an invalid assignment
     # (C04: a bound that does not move strictly past the incumbent lets the same solution be found for ever)
@@ -40,6 +42,7 @@ TABLE: List[Entry] = [
     # ---- multiprocessing parent ----------------------------------------------------------------------------
     ("R-STATS-SLOT", None, None, {"C11", "C17"}),
     ("R-MARKER", None, "solution-forwarded", {"C01", "C02", "C11"}),
+    ("R-MARKER", None, "completion-flags-fresh", {"C11", "C18"}),
     ("R-MARKER", None, None, {"C11"}),
     ("R-KEEPBEST", None, None, {"C03", "C11"}),
     ("R-STATS-MAP", "BacktrackSolver", None, {"C17"}),
@@ -53,6 +56,9 @@ TABLE: List[Entry] = [
     ("R-PARTITION", None, "store-level:dom_update", {"C02", "C09"}),  # where the replay record is written is not a progress matter
     ("R-PARTITION", None, None, {"C02", "C04", "C09"}),
     # ---- choice-point stack: C07 is only concerned with the enabled-flags half
+    ("R-PUSH-POP", "cp_init", "flags-row0", {"C02", "C03", "C07", "C09"}),
+    ("R-PUSH-POP", "cp_init", None, {"C02", "C03", "C09"}),  # a restart of the optimisation goes through cp_init
+    ("R-FLAGS-WRITERS", "cp_init", "protocol-writer-silent", {"C01", "C03", "C07", "C08"}),
     ("R-PUSH-POP", None, "copy-flags", {"C02", "C07", "C09"}),
     ("R-PUSH-POP", None, "flags-row0", {"C02", "C03", "C07", "C09"}),
     ("R-PUSH-POP", None, "restore-stores", {"C02", "C07", "C09"}),
